@@ -291,6 +291,36 @@ def register_units(UNITS, gen):
                         todo.append(f.id)
         return sorted(set(sites))
 
+    ACCEPT_HOOKS = ("verify_request", "get_request", "process_request", "service_actions", "serve_forever",
+                    "handle_request", "handle_timeout", "close_request", "shutdown_request", "handle_error")
+    SOCKET_WRITES = ("send", "sendall", "sendto", "sendmsg", "sendfile", "write", "writelines")
+
+    def accept_loop_sites(repo):
+        """Overrides, in pygopherd/server.py, of the socketserver hooks that run in the accept loop (or in
+        the per-connection wrapper around the request handler) and send something to the client
+        themselves: such a write is outside GopherRequestHandler.handle and its except clauses."""
+        tree = gen.parse(repo, "pygopherd/server.py")
+        methods = {}
+        for n in tree.body:
+            if isinstance(n, ast.ClassDef) and n.name != "GopherRequestHandler":
+                for m in n.body:
+                    if isinstance(m, ast.FunctionDef):
+                        methods.setdefault(m.name, []).append((n.name, m))
+        todo, seen, sites = [h for h in ACCEPT_HOOKS if h in methods], set(), []
+        while todo:
+            name = todo.pop(0)
+            if name in seen:
+                continue
+            seen.add(name)
+            for owner, node in methods.get(name, []):
+                for x in ast.walk(node):
+                    if isinstance(x, ast.Call) and isinstance(x.func, ast.Attribute):
+                        if x.func.attr in SOCKET_WRITES:
+                            sites.append("server.%s.%s: %s" % (owner, name, dotted(x.func)))
+                        if x.func.attr in methods and x.func.attr not in seen and x.func.attr != "wrap_socket":
+                            todo.append(x.func.attr)
+        return sorted(set(sites))
+
     def unit_conn(repo):
         lines = ["(* GENERATED by translate/gen_conn.py from pygopherd/protocols/*.py and pygopherd/server.py — do not edit *)",
                  "From Coq Require Import List.", "Import ListNotations.",
@@ -307,6 +337,9 @@ def register_units(UNITS, gen):
         lines.append("From Coq Require Import String.")
         lines.append("Definition classify_write_sites : list string := [%s]%%string."
                      % "; ".join('"%s"' % x.replace('"', "'") for x in classification_sites(repo)))
+        lines.append("(* writes to the client issued by server.py's overrides of the socketserver accept-loop hooks *)")
+        lines.append("Definition accept_loop_write_sites : list string := [%s]%%string."
+                     % "; ".join('"%s"' % x.replace('"', "'") for x in accept_loop_sites(repo)))
         return "\n".join(lines) + "\n"
 
     def unit_opens(repo):
